@@ -234,7 +234,7 @@ impl Property for C05 {
     fn budget(&self, tier: Tier) -> Budget {
         match tier {
             Tier::Quick => Budget {
-                seconds: 25,
+                seconds: 60,
                 max_cases: 2_000_000,
             },
             Tier::Thorough => Budget {
